@@ -173,8 +173,11 @@ def run_gentest(d, script='test_cmd.py', flags=(), refs=('outdir',), command='sh
 
 
 def run_script(d, script):
-    p = subprocess.run([PY, script, '-v'], cwd=d, env=env_for(d), stdout=subprocess.PIPE, stderr=subprocess.STDOUT,
-                       text=True, errors='replace', timeout=300)
+    for attempt in range(3):
+        p = subprocess.run([PY, script, '-v'], cwd=d, env=env_for(d), stdout=subprocess.PIPE, stderr=subprocess.STDOUT,
+                           text=True, errors='replace', timeout=300)
+        if p.returncode >= 0:
+            break       # a negative status is death by signal (an abort at interpreter teardown under load): run it again
     results = {}
     for m in re.finditer(r'^(test_\w+) \(', p.stdout, flags=re.M):
         results.setdefault(m.group(1), 'ok')
